@@ -152,8 +152,14 @@ func scC03(r *Run) {
 
 func init() {
 	register(&PropDef{ID: "C01", Quick: 3000, Thorough: 300000, Profiles: []ProfileDef{{Name: "seq", Share: 1, Sc: scC01}}})
-	register(&PropDef{ID: "C02", Quick: 3000, Thorough: 300000, Profiles: []ProfileDef{{Name: "seq", Share: 1, Sc: scC02}}})
-	register(&PropDef{ID: "C03", Quick: 3000, Thorough: 300000, Profiles: []ProfileDef{{Name: "seq", Share: 1, Sc: scC03}}})
+	register(&PropDef{ID: "C02", Quick: 3300, Thorough: 330000, Profiles: []ProfileDef{
+		{Name: "seq", Share: 10, Sc: scC02},
+		{Name: "init-burst", Share: 1, Sc: scMuxBurst("init")},
+	}})
+	register(&PropDef{ID: "C03", Quick: 3300, Thorough: 330000, Profiles: []ProfileDef{
+		{Name: "seq", Share: 10, Sc: scC03},
+		{Name: "target-burst", Share: 1, Sc: scMuxBurst("target")},
+	}})
 }
 
 func scC16(r *Run) {
